@@ -82,14 +82,14 @@ theorem mergeGroup_conflict_atomic (st : St) (r : Rec) (n : String) (i : Nat)
 
 /-- **items of a multi-line group = items of the earlier lines followed by those of the new line** -/
 theorem merged_items_concat (p r : Rec) (n : String) (tg : List String) (hp : p.rt = .U) (hr : r.rt = .U) :
-    (⟨.U, [n, fld p 1 ++ " " ++ fld r 1] ++ tg, false⟩ : Rec).itemRefs = p.itemRefs ++ r.itemRefs := by
+    (⟨.U, [n, catItems (fld p 1) (fld r 1)] ++ tg, false⟩ : Rec).itemRefs = p.itemRefs ++ r.itemRefs := by
   simp only [Rec.itemRefs, hp, hr, fld, List.cons_append, List.getD_cons_succ, List.getD_cons_zero]
-  rw [C02.splitStr_append, List.filter_append]
+  rw [C02.filter_split_catItems]
 
 theorem merged_items_concat_O (p r : Rec) (n : String) (tg : List String) (hp : p.rt = .O) (hr : r.rt = .O) :
-    (⟨.O, [n, fld p 1 ++ " " ++ fld r 1] ++ tg, false⟩ : Rec).itemRefs = p.itemRefs ++ r.itemRefs := by
+    (⟨.O, [n, catItems (fld p 1) (fld r 1)] ++ tg, false⟩ : Rec).itemRefs = p.itemRefs ++ r.itemRefs := by
   simp only [Rec.itemRefs, hp, hr, fld, List.cons_append, List.getD_cons_succ, List.getD_cons_zero]
-  rw [C02.splitStr_append, List.filter_append, List.map_append]
+  rw [C02.filter_split_catItems, List.map_append]
 
 -- non-vacuity
 example : mergeTags ["xx:i:1", "yy:Z:a"] ["zz:i:3", "xx:i:1"] = some ["zz:i:3", "xx:i:1", "yy:Z:a"] := by decide
